@@ -311,15 +311,36 @@ fn static_checks() {
             }
         }
     }
-    // sanity: legal counterparts are accepted
+    // legal counterparts are accepted: every ordered subset of the four options (65 sequences)
     let mut legal_rejected: Vec<Value> = Vec::new();
-    for (text, kinds) in [
+    let optv = ["futures_crate_path(::futures)", "custom_joiner(j!)", "transpose_results(false)", "lazy_branches(true)"];
+    let mut seqs: Vec<Vec<usize>> = vec![vec![]];
+    let mut frontier: Vec<Vec<usize>> = vec![vec![]];
+    for _ in 0..4 {
+        let mut next = Vec::new();
+        for s in &frontier {
+            for o in 0..4 {
+                if !s.contains(&o) {
+                    let mut t = s.clone();
+                    t.push(o);
+                    next.push(t);
+                }
+            }
+        }
+        seqs.extend(next.iter().cloned());
+        frontier = next;
+    }
+    let async_kinds: Vec<&str> = KINDS.iter().filter(|k| k.1).map(|k| k.0).collect();
+    let mut legal: Vec<(String, Vec<&str>)> = Vec::new();
+    for sq in &seqs {
+        let text = format!("{} Some(1), Some(2)", sq.iter().map(|o| optv[*o]).collect::<Vec<_>>().join(" "));
+        legal.push((text, if sq.contains(&0) { async_kinds.clone() } else { all.clone() }));
+    }
+    for (text, kinds) in legal.into_iter().chain([
         ("Some(1), Some(2), map => |a, b| a + b".to_string(), try_kinds.clone()),
         ("Some(1), Some(2), and_then => |a, b| Some(a + b)".to_string(), try_kinds.clone()),
         ("Some(1), Some(2), then => |a, b| a".to_string(), plain_kinds.clone()),
-        ("custom_joiner(j!) lazy_branches(true) transpose_results(false) Some(1), Some(2)".to_string(), all.clone()),
-        ("transpose_results(false) lazy_branches(true) custom_joiner(j!) Some(1), Some(2)".to_string(), all.clone()),
-    ] {
+    ]) {
         for k in &kinds {
             checked += 1;
             let s = expand(&text, k);
